@@ -1,0 +1,48 @@
+//go:build verif
+
+package kmip
+
+import (
+	"reflect"
+	"sort"
+)
+
+// This file is only compiled with the `verif` build tag. It exposes read-only snapshots of the
+// dispatch tables for the external verification harness. It adds no behaviour.
+
+// VerifOperationTypes describes one entry of operationRegistry.
+type VerifOperationTypes struct {
+	Operation Operation
+	Request   reflect.Type
+	Response  reflect.Type
+}
+
+// VerifDumpOperations returns operationRegistry sorted by operation code.
+func VerifDumpOperations() []VerifOperationTypes {
+	res := make([]VerifOperationTypes, 0, len(operationRegistry))
+	for op, t := range operationRegistry {
+		res = append(res, VerifOperationTypes{op, t.request, t.response})
+	}
+	sort.Slice(res, func(i, j int) bool { return res[i].Operation < res[j].Operation })
+	return res
+}
+
+// VerifAttrType describes one entry of attrTypes.
+type VerifAttrType struct {
+	Name AttributeName
+	Type reflect.Type
+}
+
+// VerifDumpAttrTypes returns attrTypes sorted by name.
+func VerifDumpAttrTypes() []VerifAttrType {
+	res := make([]VerifAttrType, 0, len(attrTypes))
+	for n, t := range attrTypes {
+		res = append(res, VerifAttrType{n, t})
+	}
+	sort.Slice(res, func(i, j int) bool { return res[i].Name < res[j].Name })
+	return res
+}
+
+// VerifNewRequestPayload / VerifNewResponsePayload expose the payload factories.
+func VerifNewRequestPayload(op Operation) OperationPayload  { return newRequestPayload(op) }
+func VerifNewResponsePayload(op Operation) OperationPayload { return newResponsePayload(op) }
